@@ -1578,6 +1578,11 @@ class Evaluator:
                 first_hit = ("call", "next", (("comp", "gen", alts[0][1], ((pat, it, tuple(alts[0][0])),)), oldv), ())
             acc = first_hit if first_hit is not None else self._summarise_accumulation(
                 name, oldv, alts, pat, it, line, bool(breaks), n_paths=len(normals) + len(breaks))
+            if acc is None and not breaks and not exits and len(alts) == 1 and oldv is not None and (
+                    not any(x == oldv for x in subterms(alts[0][1])) or not _body_reads_name(st.body, name)):
+                # `v = default; for x in S: if c(x): v = f(x)` (no break, f does not use v): the LAST hit, or the default --
+                # next((f(x) for x in reversed(S) if c(x)), default)
+                acc = ("call", "next", (("comp", "gen", alts[0][1], ((pat, ("call", "reversed", (it,), ()), tuple(alts[0][0])),)), oldv), ())
             if (acc is None or has_unknown(acc)) and self.loop_once and oldv is not None:
                 # relational abstraction (used only when BOTH sides of a comparison are evaluated this way): the state after ONE generic
                 # iteration -- a case distinction over the body's paths -- tagged with the collection the loop ranges over
@@ -1594,8 +1599,13 @@ class Evaluator:
             else:
                 after.env[name] = acc
         # loop variables remain bound to "some element" after the loop
-        for nm in _target_names(st.target):
-            after.env[nm] = unknown(f"loop-var-after:{nm}", line)
+        tnames = _target_names(st.target)
+        for nm in tnames:
+            if len(tnames) == 1 and isinstance(st.target, ast.Name) and not breaks and not leaves:
+                # after a loop that ran to its end the variable is still bound to the LAST element (unbound if there was none)
+                after.env[nm] = ("index", ("call", "list", (it,), ()), const(-1))
+            else:
+                after.env[nm] = unknown(f"loop-var-after:{nm}", line)
         if exits:
             # falling through means no iteration took an exit path
             for stt, status, val, ln in exits:
@@ -3926,6 +3936,17 @@ def _guard_is_vacuous(test: ast.expr, it: ast.expr) -> bool:
         r = it.args[1]
         if fn in ("combinations", "permutations") and isinstance(r, ast.Constant) and isinstance(r.value, int) and k <= r.value:
             return True
+    return False
+
+
+def _body_reads_name(stmts: list, name: str) -> bool:
+    """Does the loop body read the variable `name` anywhere (so that the value of one iteration can depend on the previous one's)?"""
+    for st in stmts:
+        for n in ast.walk(st):
+            if isinstance(n, ast.Name) and n.id == name and isinstance(n.ctx, ast.Load):
+                return True
+            if isinstance(n, ast.AugAssign) and isinstance(n.target, ast.Name) and n.target.id == name:
+                return True
     return False
 
 
